@@ -332,7 +332,10 @@ def r4(ctx, modname):
         trys = [t for t in ast.walk(f.node) if isinstance(t, ast.Try) and any(x is c for s in t.body for x in ast.walk(s)) and any(h.type is not None and "TimeoutError" in unparse(h.type) for h in t.handlers)]
         ctx.check(sup_ok or bool(trys), R, f"{gen}:init:timeout-swallowed", m, c, "TimeoutError from wait_for is suppressed (init never raises on a silent console)", "not suppressed")
     rets = [x for x in walk_no_nested(f.node) if isinstance(x, ast.Return)]
-    ok = len(rets) == 1 and rets[0].value is not None and norm_text(rets[0].value) == "self._initialised_event.is_set()" and f.node.body[-1] is rets[0]
+    from ..q import inline_properties
+
+    rv = norm_text(inline_properties(ctx.repo, m, rets[0].value, "self", f.cls)) if len(rets) == 1 and rets[0].value is not None else ""
+    ok = len(rets) == 1 and rv == "self._initialised_event.is_set()" and f.node.body[-1] is rets[0]
     ctx.check(ok, R, f"{gen}:init:returns-event-state", m, f.node, "the only exit is `return self._initialised_event.is_set()`", "; ".join(norm_text(r) for r in rets))
     raises = [x for x in walk_no_nested(f.node) if isinstance(x, ast.Raise)]
     ctx.check(not raises, R, f"{gen}:init:never-raises", m, f.node, "no raise statement in init()", f"line {raises[0].lineno}" if raises else "")
